@@ -181,7 +181,7 @@ func genC03Srv(r *hysim.Rand, tier string) *hysim.Script {
 		case p < 62:
 			sc.Ops = append(sc.Ops, hysim.Op{K: "hdgram", A: []int64{h, seed, int64(r.Intn(4)), int64(r.Range(1, 5))}})
 		case p < 70:
-			sc.Ops = append(sc.Ops, hysim.Op{K: "huni", A: []int64{h, seed, int64(r.Pick(0, 2, 3, 0x21, 0x401, 1<<30 + 5))}})
+			sc.Ops = append(sc.Ops, hysim.Op{K: "huni", A: []int64{h, seed, int64(r.Pick(0, 2, 3, 0x21, 0x401, 1<<30+5))}})
 		case p < 78:
 			sc.Ops = append(sc.Ops, hysim.Op{K: "hhttp", A: []int64{h, seed}})
 		case p < 83:
@@ -633,15 +633,15 @@ func genC03Cli(r *hysim.Rand, tier string) *hysim.Script {
 
 type c03CliWorld struct {
 	*wWorld
-	x      *hysim.Run
-	clean  bool
-	conns  []*quic.Conn // accepted by the hostile server
-	plan   map[string]hysim.Op
-	cl     client.Client
-	udpOn  bool
-	ucs    []client.HyUDPConn
-	recv   chan string
-	ncan   int
+	x     *hysim.Run
+	clean bool
+	conns []*quic.Conn // accepted by the hostile server
+	plan  map[string]hysim.Op
+	cl    client.Client
+	udpOn bool
+	ucs   []client.HyUDPConn
+	recv  chan string
+	ncan  int
 	// the hostile server broke HTTP/3 itself (streams the protocol forbids): the client may
 	// rightly end this connection, which is the hostile peer's own
 	connMayDie bool
